@@ -195,6 +195,9 @@ func verifMirror(raw []byte) interface{} {
 		for range group {
 			results = append(results, observe())
 		}
+		// a collector that runs for more than a moment goes through garbage collections (forced every two minutes at the latest):
+		// here after every group
+		runtime.GC()
 	}
 	// pool integrity: every buffer now in a pool has that pool's size
 	foreign := 0
